@@ -8,6 +8,7 @@ pub mod c07c;
 pub mod c08;
 pub mod c09;
 pub mod c10;
+pub mod c11;
 pub mod c12;
 pub mod c13;
 pub mod c14;
@@ -25,6 +26,7 @@ pub fn lookup(id: &str) -> Option<Box<dyn Prop>> {
         "C08" => Box::new(c08::C08),
         "C09" => Box::new(c09::C09),
         "C10" => Box::new(c10::C10),
+        "C11" => Box::new(c11::C11),
         "C12" => Box::new(c12::C12),
         "C13" => Box::new(c13::C13),
         "C14" => Box::new(c14::C14),
